@@ -1,4 +1,5 @@
 import Reclass.Props.C04
+import Reclass.Props.C04c
 open Reclass
 #print axioms Reclass.C04.layer_step
 #print axioms Reclass.C04.layer_done
@@ -16,3 +17,9 @@ open Reclass
 #print axioms Reclass.C04.ref_layer_transparent_at
 #print axioms Reclass.C04.ref_layer_transparent_vl_at
 #print axioms Reclass.C04.ref_layer_transparent
+#print axioms Reclass.C04c.layersStr_nil
+#print axioms Reclass.C04c.layersStr_cons
+#print axioms Reclass.C04c.layersStr_shape
+#print axioms Reclass.C04c.layersStr_no_string_layers
+#print axioms Reclass.C04c.layersStr_only_strings_matter
+#print axioms Reclass.C04c.lookup_step_reads_merged_raw_layers
